@@ -28,7 +28,8 @@ ASSUMPTIONS = [
 COMPONENTS = {"real": ["Exchange", "LimitOrderBook", "EventNBBO", "EventContractDiscontinued", "IEvent.notify dispatch", "TradingEnv.notify (one third of the runs)", "contracts", "FutureChain"],
               "harness": ["dict book model", "calendar-free lead model"], "stub": []}
 PROBE_FLOORS = {"revival_attempt": 200, "chain_key_after_roll": 100, "string_key_query": 200, "quote_other_key_between": 500,
-                "query_dead_book": 200, "chain_quote_dispatched_by_environment": 700, "events_delivered_by_an_episode": 350, "replay_with_events_inside_latency_windows": 200, "refused_step_then_retry": 120}
+                "query_dead_book": 200, "chain_quote_dispatched_by_environment": 700, "events_delivered_by_an_episode": 350, "replay_with_events_inside_latency_windows": 200, "refused_step_then_retry": 120,
+                "quote_through_a_chain_built_from_an_unsorted_list": 800}
 
 
 def generate(rng, i):
@@ -49,6 +50,9 @@ def generate(rng, i):
             specs.append({"name": "CH{}".format(k), "kind": "chain", "cls": cls, "start": "2019-01", "end": "2021-06",
                           "month": rng.choice([0, 0, 1])})
             have_chain = True
+    for s in specs:
+        if s["kind"] == "chain" and (s["month"] * 7 + len(specs) + i) % 3 == 0:
+            s["listed_order_seed"] = i       # decided without consuming a draw of the generator's stream
     # keep symbols unique: two single futures of the same class/month collapse into one book by design
     seen = set()
     uniq = []
@@ -264,7 +268,7 @@ def _execute_episode(sc, clock0):
         site = core.library_site(e)
         if site is None:
             raise
-        violate(cur[0], "unexpected_exception", "episode mode: {!r} in {}".format(e, site), exc=type(e).__name__, site=site)
+        violate(cur[0], "unexpected_exception", "episode mode: {!r} in {}".format(e, site), exc=core.exc_name(e), site=site)
     probe("events_delivered_by_an_episode")
     return {"violations": violations, "digest": core.digest(log), "probes": probes, "faults": faults, "stats": stats,
             "trace": "episode|{}|{}".format(len(evs), ndays), "nontrivial": stats["quotes"] >= 1}
@@ -365,6 +369,8 @@ def _execute(sc, clock0):
                 last_quoted = sym
                 if lead is not None and lead > specs[op["k"]].get("month", 0):
                     probe("chain_key_after_roll")
+                if lead is not None and specs[op["k"]].get("listed_order_seed") is not None:
+                    probe("quote_through_a_chain_built_from_an_unsorted_list")
                 stats["quotes"] += 1
                 trace.append("q{}{}{}".format(specs[op["k"]]["kind"][0], "a" if mb["alive"] else "d", lead if lead is not None else ""))
             elif name == "disc":
@@ -430,7 +436,7 @@ def _execute(sc, clock0):
         site = core.library_site(e)
         if site is None:
             raise
-        violate(cur[0], "unexpected_exception", "op {} ({}) raised {!r} in {}".format(cur[0], sc["script"][cur[0]]["op"], e, site), exc=type(e).__name__, site=site)
+        violate(cur[0], "unexpected_exception", "op {} ({}) raised {!r} in {}".format(cur[0], sc["script"][cur[0]]["op"], e, site), exc=core.exc_name(e), site=site)
     return {"violations": violations, "digest": core.digest(log), "probes": probes, "faults": faults, "stats": stats,
             "trace": "".join(trace), "nontrivial": stats["quotes"] >= 1 and len(probes) >= 1}
 
